@@ -44,7 +44,9 @@ static void arm(const char *what, size_t inlen) {
     snprintf(BUDGET_WHAT, sizeof BUDGET_WHAT, "%s", what);
     vf_cpu_arm(BUDGET_WHAT, 2000);
     vf_alloc_budget = vf_alloc_calls + (strncmp(what, "qconfig", 7) ? 20000 : 4000 + (long)inlen / 4);
-    vf_bytes_budget = vf_ledger_live_bytes() + (long)(64 * inlen) + (64L << 20);   /* far above anything a document whose values stay below the classifier's 128 KiB can need */
+    /* far above anything a terminating call can need: the INI parser sizes every replacement buffer for the worst case, (|value| / |token|) * |replacement|, i.e. quadratic in the input
+     * (an 18 KB value referenced through a 6-byte ${k} asked for 108 MB in one malloc - wasteful, but it terminates; soak seed 3) */
+    vf_bytes_budget = vf_ledger_live_bytes() + (long)(64 * inlen) + (64L << 20) + (long)(inlen * inlen);
 }
 static void disarm(void) { vf_alloc_budget = 0; vf_bytes_budget = 0; vf_cpu_disarm(); }
 
@@ -63,6 +65,7 @@ static void write_mem(const void *p, size_t n) {
 static void evaluate(int fn, const unsigned char *in, size_t n, const char *path_override) {
     vf_count("evaluations", 1);
     { char c[64]; snprintf(c, sizeof c, "inputs:%s", FNAME[fn]); vf_count(c, 1); }
+    { const char *dump = getenv("VF_DUMP_INPUT"); if (dump && VF.only_case >= 0) { int fd = open(dump, O_WRONLY | O_CREAT | O_TRUNC, 0600); if (fd >= 0) { if (write(fd, in, n) < 0) {} close(fd); } } }   /* replay aid */
     switch (fn) {
     case F_URL: case F_B64: case F_HEX: {
         char *buf = hm_alloc(n + 1); memcpy(buf, in, n); buf[n] = 0;          /* exactly-sized heap buffer */
@@ -161,7 +164,7 @@ static void mutate(int fn) {
     int nm = 1 + (int)rng_below(&R, 3);
     for (int m = 0; m < nm; m++) {
         size_t at = MBN ? rng_below(&R, (uint32_t)MBN + 1) : 0;
-        switch (rng_below(&R, 16)) {
+        switch (rng_below(&R, 17)) {
         case 0: MBN = at; break;                                                             /* truncate anywhere */
         case 1: if (MBN) { size_t a = rng_below(&R, (uint32_t)MBN), l = 1 + rng_below(&R, 20); if (a + l > MBN) l = MBN - a; unsigned char *cp = vf_xdup(MB + a, l); mb_insert(at > MBN ? MBN : at, cp, l); hm_free(cp); } break;   /* duplicate */
         case 2: if (MBN) { size_t a = rng_below(&R, (uint32_t)MBN), l = 1 + rng_below(&R, 10); if (a + l > MBN) l = MBN - a; memmove(MB + a, MB + a + l, MBN - a - l); MBN -= l; } break;   /* delete */
@@ -183,6 +186,10 @@ static void mutate(int fn) {
                   size_t ll = strlen(nm) + 3; char *x = hm_alloc(N * ll + 1); for (size_t i = 0; i < N; i++) { x[i * ll] = '<'; memcpy(x + i * ll + 1, nm, ll - 3); x[i * ll + ll - 2] = '>'; x[i * ll + ll - 1] = '\n'; }
                   size_t where = rng_chance(&R, 1, 2) ? 0 : (at > MBN ? MBN : at); while (where > 0 && where < MBN && MB[where - 1] != '\n') where--;
                   mb_insert(where, x, N * ll); hm_free(x); vf_count("deeply_nested_section_documents", 1); } break;
+        case 15: if (CUR_BN) { /* a file that includes itself (the mutated copy is written as mut-<shard>-<pid>.conf next to the seed), directly or after some text */
+                  char inc[96]; int n = snprintf(inc, sizeof inc, "@INCLUDE mut-%d-%d.conf\n", VF.shard, (int)getpid());
+                  size_t where = rng_chance(&R, 1, 2) ? 0 : (at > MBN ? MBN : at); while (where > 0 && where < MBN && MB[where - 1] != '\n') where--;
+                  mb_insert(where, inc, (size_t)n); vf_count("self_including_documents", 1); } break;
         case 13: if (CUR_BN) { /* include line naming an EXISTING file, padded with blanks to the neighbourhood of PATH_MAX (the blanks are trimmed before the file is opened) */
                   size_t L = rng_chance(&R, 3, 4) ? 4078 + rng_below(&R, 24) : 3000 + rng_below(&R, 3000), bl = strlen(CUR_BN); if (L < bl + 2) L = bl + 2;
                   size_t lead = rng_chance(&R, 1, 2) ? 0 : rng_below(&R, (uint32_t)(L - bl)); char *x = hm_alloc(L + 16); memcpy(x, "\n@INCLUDE ", 10); memset(x + 10, rng_chance(&R, 1, 4) ? '\t' : ' ', L); memcpy(x + 10 + lead, CUR_BN, bl); x[10 + L] = '\n';
